@@ -507,7 +507,9 @@ class Vector():
 		>>> v.dropna()
 		Vector([1, 3, 5])
 		"""
-		return Vector(tuple(elem for elem in self._underlying if elem is not None), dtype=self._dtype.with_nullable(False))
+		# (an empty vector that was never typed has no dtype to carry over)
+		dtype = self._dtype.with_nullable(False) if self._dtype is not None else None
+		return Vector(tuple(elem for elem in self._underlying if elem is not None), dtype=dtype)
 
 	def isna(self):
 		"""
@@ -1427,17 +1429,23 @@ class Vector():
 	def __lshift__(self, other):
 		""" The << operator behavior has been overridden to attempt to concatenate (append) the new array to the end of the first
 		"""
-		if self._dtype.kind in (bool, int) and isinstance(other, int):
+		if self._dtype is not None and self._dtype.kind in (bool, int) and isinstance(other, int):
 			warnings.warn(f"The behavior of >> and << have been overridden for concatenation. Use .bitshift() to shift bits.")
 
 		if isinstance(other, Vector):
-			if not self._dtype.nullable and not other.schema().nullable and self._dtype.kind != other.schema().kind:
+			# (an empty vector that was never typed - the columns of a table built from empty
+			# lists - has no dtype: it takes, or leaves, the other side's)
+			if self._dtype is not None and other.schema() is not None and not self._dtype.nullable and not other.schema().nullable and self._dtype.kind != other.schema().kind:
 				raise SerifTypeError("Cannot concatenate two typesafe Vectors of different types")
 			appended = other._underlying
 		elif isinstance(other, Iterable) and not isinstance(other, (str, bytes, bytearray)):
 			appended = tuple(other)
 		else:
 			appended = (other,)
+		if self._dtype is None:
+			if isinstance(other, Vector):
+				return Vector(list(appended), dtype=other.schema())
+			return Vector(list(appended))
 		# The result dtype must cover the appended values too (None makes it
 		# nullable, wider numbers promote, anything else degrades to object)
 		dtype = self._dtype
